@@ -64,9 +64,22 @@ func H_C18_glue(v *zzverif.T) {
 	v.Assert("C18.model-or-error", (m == nil) == (err != nil))
 }
 
+// zzRawElemSize: bytes per element of the ONNX element types that gonnx reads from raw_data.
+func zzRawElemSize(dt int) int {
+	switch dt {
+	case 2, 3, 9: // UINT8, INT8, BOOL
+		return 1
+	case 4, 5: // UINT16, INT16
+		return 2
+	case 1, 6, 12: // FLOAT, INT32, UINT32
+		return 4
+	}
+	return 8 // INT64, DOUBLE, UINT64
+}
+
 // H_C18_newmodel: an arbitrary decoded message within the bounds either loads or is refused.
 //
-// case: nopset (0..3); graph (bool); ninit (0..2); n0, n1 (typed elements of each initializer); raw (bool: second payload raw);
+// case: nopset (0..3); graph (bool); ninit (0..2); n0, n1 (typed elements of each initializer); raw (bool: second payload raw); rawdt (its ONNX element type);
 // ninfo (0..2 value infos with holes)
 func H_C18_newmodel(v *zzverif.T) {
 	mp := &onnx.ModelProto{}
@@ -90,9 +103,11 @@ func H_C18_newmodel(v *zzverif.T) {
 			d0 := v.IntIn(fmt.Sprintf("dim%d", i), -1, 3)
 			tp := &onnx.TensorProto{Name: fmt.Sprintf("w%d", i), Dims: []int64{int64(d0)}}
 			if i == 1 && v.CBool("raw") {
-				tp.DataType = 6 // INT32, raw little-endian
+				// raw little-endian payload of the element type the case names
+				rawdt := v.CInt("rawdt")
+				tp.DataType = int32(rawdt)
 				tp.RawData = zzverif.Syms[byte](v, "raw", n)
-				if d0 < 0 || n != 4*d0 {
+				if d0 < 0 || n != zzRawElemSize(rawdt)*d0 {
 					decodable = false
 				}
 			} else {
